@@ -11,7 +11,7 @@ import (
 
 func init() {
 	register(&Rule{ID: "C13.iter", Floor: 6, Also: []string{"C04", "C07"}, AlsoOnly: map[string][]string{"C07": {" cursor"}}, AlsoFloor: map[string]int{"C07": 1},
-		Text: "PathIterator: Left, Part and Right slice the path at the same two cursors ([:start], [start:end], [end:]) so that they always reassemble it; Next moves start to end+1 and end to the next separator or the end of the path; ReplacePart assigns Join(path[:start], new, path[end:]) (Join(new, path[end:]) for an absolute replacement) and keeps the cursor only when the whole prefix path[:start] — compared with the same bound on both sides — is unchanged, otherwise it restarts",
+		Text: "PathIterator: Left, Part and Right slice the path at the same two cursors ([:start], [start:end], [end:]) so that they always reassemble it; Next moves start to end+1 and end to the next separator or the end of the path; ReplacePart assigns Join(path[:start], new, path[end:]) (Join(new, path[end:]) for an absolute replacement, after which the length of the volume name is computed again from the new path) and keeps the cursor only when the whole prefix path[:start] — compared with the same bound on both sides — is unchanged, otherwise it restarts",
 		Run:  c13Iter})
 }
 
@@ -163,6 +163,54 @@ func c13Iter(rc *RuleCtx) {
 		rc.good(cons, f.Pos(), "Join(path[:start], new, path[end:]) / Join(new, path[end:]) for an absolute replacement")
 	} else {
 		rc.bad(cons, f.Pos(), "the spliced path is not the Join of the pieces left of the part, the replacement and the pieces right of it: "+strings.Join(joins, " | "))
+	}
+	// (a') an absolute replacement can name another volume: the length of the volume name is computed again
+	cons = "avfs.(*PathIterator).ReplacePart volume"
+	okVol, whyVol := false, "ReplacePart never assigns the length of the volume name: after an absolute replacement that names another volume (C: -> \\\\host\\share) Reset and VolumeName still use the length of the old one"
+	eachInstr(f, func(in ssa.Instruction) {
+		st, ok := in.(*ssa.Store)
+		if !ok {
+			return
+		}
+		fa, ok := st.Addr.(*ssa.FieldAddr)
+		if !ok || fieldName(fa.X.Type(), fa.Field) != "volumeNameLen" {
+			return
+		}
+		c, _ := resultOfCall(st.Val)
+		if c == nil || calleeFunc(c) == nil || calleeFunc(c).Name() != "VolumeNameLen" {
+			whyVol = "the length of the volume name is assigned something else than VolumeNameLen(...)"
+			return
+		}
+		args := callArgs(c)
+		// the argument is the new path: the field just stored, or the value stored into it
+		newPath := false
+		for _, o := range originsOf(args[len(args)-1]) {
+			if cc, _ := resultOfCall(o); cc != nil && calleeFunc(cc) != nil && calleeFunc(cc).Name() == "Join" {
+				newPath = true
+			}
+			if ld, ok := o.(*ssa.UnOp); ok && ld.Op == token.MUL {
+				if lfa, ok := ld.X.(*ssa.FieldAddr); ok && fieldName(lfa.X.Type(), lfa.Field) == "path" {
+					// loaded after the splice was stored
+					eachInstr(f, func(in2 ssa.Instruction) {
+						if st2, ok := in2.(*ssa.Store); ok {
+							if fa2, ok := st2.Addr.(*ssa.FieldAddr); ok && fieldName(fa2.X.Type(), fa2.Field) == "path" && domInstr(st2, ld) {
+								newPath = true
+							}
+						}
+					})
+				}
+			}
+		}
+		if !newPath {
+			whyVol = "the length of the volume name is computed from something else than the new path"
+			return
+		}
+		okVol = true
+	})
+	if okVol {
+		rc.good(cons, f.Pos(), "volumeNameLen = VolumeNameLen(new path) after the splice")
+	} else {
+		rc.bad(cons, f.Pos(), whyVol)
 	}
 	// (b) keep-cursor condition
 	cons = "avfs.(*PathIterator).ReplacePart keep-cursor"
